@@ -568,6 +568,40 @@ def n18_map_stmt(body, log):
         log.append("N18")
 
 
+def n23_str_match(body, log):
+    """N23: `match S { "A" => X, "B" => Y, _ => Z }` on a string slice ==> `if S == "A" { X } else if S == "B" { Y } else { Z }`
+    (definition of matching constant string patterns, tested in order)."""
+    while True:
+        m = mask(body)
+        found = None
+        for hit in re.finditer(r"(?<![A-Za-z0-9_])match\s+", m):
+            k = hit.end()
+            j = k
+            while j < len(m) and m[j] != "{":
+                if m[j] in "([":
+                    j = match_close(m, j)
+                j += 1
+            c = match_close(m, j)
+            arms = parse_match_arms(body[j + 1:c], m[j + 1:c])
+            if arms and all((a["pat"].startswith('"') and a["pat"].endswith('"')) or a["pat"] == "_" for a in arms) \
+                    and arms[-1]["pat"] == "_" and not any(a["guard"] for a in arms) and len(arms) > 1:
+                found = (hit.start(), k, j, c, arms)
+                break
+        if not found:
+            return body
+        start, k, j, c, arms = found
+        scrut = body[k:j].strip()
+        parts = []
+        for a in arms[:-1]:
+            ab = a["body"] if a["body"].lstrip().startswith("{") else "{ " + a["body"] + " }"
+            parts.append("if __s == %s %s" % (a["pat"], ab))
+        wb = arms[-1]["body"] if arms[-1]["body"].lstrip().startswith("{") else "{ " + arms[-1]["body"] + " }"
+        # a `match` with a single binding arm keeps temporaries of the scrutinee alive exactly as the original match did
+        new = "match %s { __s => { %s else %s } }" % (scrut, " else ".join(parts), wb)
+        body = body[:start] + new + body[c + 1:]
+        log.append("N23")
+
+
 def n17_unsize(body, log):
     """N17: the implicit unsizing coercion `&mut X` -> `&mut dyn IdentProvider` in the struct literal field
     `ident_provider: &mut ident_provider` is made an explicit call of the identity function `verif_unsize_provider`
@@ -597,10 +631,11 @@ RULES = {
     "N14": n14_skip_cloned_collect,
     "N17": n17_unsize,
     "N18": n18_map_stmt,
+    "N23": n23_str_match,
 }
 
 # order matters: N8 restructures arms first, N4 then wraps guarded blocks, then closures are inlined
-DEFAULT_ORDER = ["N8", "N4", "N18", "N1", "N2", "N14", "N10", "N12", "N13", "N3", "N5", "N17"]
+DEFAULT_ORDER = ["N8", "N4", "N18", "N1", "N2", "N14", "N10", "N12", "N13", "N3", "N5", "N17", "N23"]
 
 
 def normalise(body, rules=None, n1_values=()):
